@@ -80,6 +80,12 @@ def audit(ctx, c, animals):
                 ctx.fail("flow-list-wrong-length", "%s transfer births" % a.animal_type, case)
             if np.any(tb < 0):
                 ctx.fail("negative-or-non-finite-surviving-calves", a.animal_type, case)
+            # surviving male calves = the dairy herd's own (female) births mirrored, less the documented 90 % calf culling
+            exp_tb = births * (a.birth_ratio - 1) * (1 - 0.9)
+            if np.any(np.abs(tb - exp_tb) > TOL * scale):
+                m = int(np.argmax(np.abs(tb - exp_tb)))
+                ctx.fail("surviving-calves-differ-from-births-less-culling",
+                         "%s month %d: %.9g calves transferred, births %.9g x (1 - 0.9 culled) = %.9g" % (a.animal_type, m, tb[m], births[m], exp_tb[m]), case)
             out = ret + tb
             if np.any(np.abs(tp + out) > TOL * scale):
                 ctx.fail("dairy-herd-transfer-not-retired-plus-surviving-calves", a.animal_type, case)
